@@ -190,6 +190,26 @@ def run(prop, tier, seed):
     if batch:
         handle(V.conformance(TRACE, mkcfg, batch, K, name=f"{prop}-B{n}", wd=wd), "binding B (recorded trace)")
 
+    # ---------------------------------------------------------------- known finding at session level (C03 only): the manager
+    # implements first-committer-wins, but no session / operator path registers its writes with it; the witness (two
+    # overlapping sessions updating one node, both commit) is re-executed and must show the 'fcw' deviation in Trace_Mvcc
+    if prop == "C03":
+        import mvcc_common as M
+        cfg_w = M.trace_cfg(os.path.join(wd, "trace-w.cfg"), devall=True)
+        for k in [k for k in V.known_for("C03") if k.get("spec") == "Mvcc" and k["status"] == "known"]:
+            ev = M.run_scripts([k["witness"]], wd, "w-" + k["id"])
+            p = os.path.join(wd, "w.ndjson")
+            V.write_ndjson(p, ev)
+            r2 = V.tlc(M.TRACE, cfg_w, name="C03-w", workers=1, dfs=True, env={"TRACE": p}, timeout=120)
+            if not r2.ok:
+                rep.violation(f"witness of known finding {k['id']} is no longer explained by the model", {"script": k["witness"]}, tag="w")
+                continue
+            devs = M.parse_devs(r2.out)
+            if any(l == k["expect"]["event"] + 1 and set(k["expect"]["kinds"]) & kinds for l, kinds in devs):
+                rep.known(k["id"], k["what_fails"] + " [" + k["site"] + "]")
+            else:
+                rep.notes.append(f"known finding {k['id']} does not reproduce on this tree")
+
     # ---------------------------------------------------------------- 4. really concurrent commits (C03 only)
     if prop == "C03":
         rounds = 400 if tier == "quick" else 6000
